@@ -87,10 +87,12 @@ CHECKS = {
     },
     "C10": {
         "groups": [
-            {"pkg": "Havoc/pkg/db", "with": ["Havoc/pkg/agent", "Havoc/pkg/logr", "Havoc/pkg/common/parser", "Havoc/pkg/socks"], "entries": ["H_c10_agent_roundtrip"]},
+            {"pkg": "Havoc/pkg/db", "with": ["Havoc/pkg/agent", "Havoc/pkg/logr", "Havoc/pkg/common/parser", "Havoc/pkg/socks"], "entries": ["H_c10_agent_roundtrip", "H_c10_listeners"]},
+            {"pkg": "Havoc/pkg/db", "with": ["Havoc/pkg/agent", "Havoc/pkg/logr", "Havoc/pkg/common/parser", "Havoc/pkg/socks"], "entries": ["H_c10_links"], "shards": 3},
+            {"pkg": "Havoc/pkg/db", "with": ["Havoc/pkg/agent", "Havoc/pkg/logr", "Havoc/pkg/common/parser", "Havoc/pkg/socks"], "entries": ["H_c10_agent_text"], "shards": 5},
         ],
-        "bounds": "one session: id with arbitrary top byte (incl. >= 0x80000000) and fixed low 24 bits, 2-byte key and IV, metadata strings of 1..2 lower-case letters, 8..32 bit symbolic integers; insert, restore, update, death, restore.",
-        "outside": "crash points and journalling, SQLite typing/column affinity (numeric-looking text), links and listeners tables, structs.Map/json listener persistence: all behind cgo/reflection (DESIGN.md C10); native replay does exercise real SQLite for the witnesses",
+        "bounds": "one session: id with arbitrary top byte (incl. >= 0x80000000) and fixed low 24 bits, 2-byte key and IV, metadata strings of 1..2 lower-case letters, 8..32 bit symbolic integers; insert, restart, restore, update, restart, death, restore. Metadata text: one of 5 text fields holds 1..3 arbitrary printable ASCII characters (digit-only, leading zeros, signs, blank padding), restart, compare. Links: every sequence of 1..3 add/remove operations over 3 agents (one id >= 0x80000000), restart, LinksOf/ParentOf/LinkExist against a reference relation. Listeners: every sequence of 1..3 add/remove operations over two arbitrary names of 1..2 printable characters with 2-character configuration text, restart, ListenerAll/Exist/Count. SQLite is a relational model that executes the SQL text the code really sends, with SQLite's type-affinity rules for integer-looking text and UNIQUE columns; every statement atomic and durable.",
+        "outside": "kill points inside a statement and journalling (each statement is atomic in the model), real-literal-looking text (digits with '.', 'e', 'E') in numeric-affinity columns, non-ASCII text, structs.Map/json listener configuration encoding (reflection); native replay exercises real SQLite for witnesses and counterexamples",
         "min_completed": 1,
     },
     "C17": {
